@@ -50,8 +50,10 @@ IsNaN(k)      == k.ty \in FloatTy /\ k.x = "NaN"
 Unhashable(k) == k.ty \in UnhashableTy
 IsZero(k)     == k.ty \in FloatTy /\ k.x \in {"+0", "-0"}
 
-\* the entry a findable key denotes
-Ent(k)    == k.ty \o ":" \o (IF IsZero(k) THEN "0" ELSE k.x)
+\* the entry a findable key denotes (complex keys carry their parts: each part compares like a float, +0 = -0)
+ZPart(p)  == IF p \in {"+0", "-0"} THEN "0" ELSE p
+Ent(k)    == IF k.ty = "complex64" THEN k.ty \o ":" \o ZPart(k.re) \o "," \o ZPart(k.im)
+             ELSE k.ty \o ":" \o (IF IsZero(k) THEN "0" ELSE k.x)
 Has(k)    == ~IsNaN(k) /\ Ent(k) \in DOMAIN m
 Empty     == [e \in {} |-> 0]
 Size      == Cardinality(DOMAIN m)
